@@ -391,13 +391,22 @@ type vkLKScenario struct {
 	Cfg     string   `json:"cfg"`     // "std" | "capZ" (zone quota 1) | "capG" (resolutionSlots 1)
 	Budgets string   `json:"budgets"` // one letter per caller in arrival order: S(hort) | L(ong)
 	Servers []string `json:"servers"` // per authority: OK | SF | RF | DEAD (never replies)
+	// Owned: every caller hands groupLookup a PRIVATE request copy and declares it lookup-owned, as
+	// resolve() does for a QNAME-minimised question (several clients' different names minimise to the
+	// same question, so they share one lookup while each must keep its own reply object).
+	Owned bool `json:"owned,omitempty"`
 }
 
 func (s vkLKScenario) String() string {
-	return s.Cfg + "/" + s.Budgets + "/" + strings.Join(s.Servers, ",")
+	o := ""
+	if s.Owned {
+		o = "/owned"
+	}
+	return s.Cfg + "/" + s.Budgets + "/" + strings.Join(s.Servers, ",") + o
 }
 
 type vkLKCaller struct {
+	owned    bool
 	idx      int
 	budget   byte
 	ctx      *vkLKCtx
@@ -488,7 +497,7 @@ func vkLKNewWorld(sc vkLKScenario, T time.Duration) (*vkLKWorld, error) {
 		req.SetEdns0(1232, false)
 		opt := req.IsEdns0()
 		opt.Option = append(opt.Option, &dns.EDNS0_LOCAL{Code: vkLKTagCode, Data: []byte{byte(idx)}})
-		return &vkLKCaller{idx: idx, budget: budget, ctx: vkLKNewCtx(dl), req: req, killStep: -1, retStep: -1, arrStep: -1}
+		return &vkLKCaller{owned: sc.Owned, idx: idx, budget: budget, ctx: vkLKNewCtx(dl), req: req, killStep: -1, retStep: -1, arrStep: -1}
 	}
 	for i := 0; i < len(sc.Budgets); i++ {
 		w.callers = append(w.callers, mk(i, sc.Budgets[i], vkLKQname))
@@ -509,7 +518,7 @@ func vkLKCallerRun(r *Resolver, c *vkLKCaller, servers *authority.Servers) {
 	ctx, _ = middleware.EnsureResolutionAttemptGuard(ctx)
 	ctx, work := middleware.EnsureRecursionWork(ctx, r.workPolicy)
 	rs := &resolveState{req: c.req, servers: servers, level: 1, requestID: c.req.Id, work: work}
-	resp, err := r.groupLookup(ctx, rs, c.req, servers, false)
+	resp, err := r.groupLookup(ctx, rs, c.req, servers, c.owned)
 	middleware.FinishRecursionWork(ctx)
 	c.resp, c.err = resp, err
 	c.returned.Store(true)
